@@ -115,19 +115,25 @@ def run(ctx) -> None:
                           "_update_cfg_from_vcs: latest tag looked up with (cfg, fetch)", "cli._update_cfg_from_vcs: tag lookup arguments changed",
                           unparse(n.value), loc=uc.loc(n))
     ctx.require(tagvar is not None, "_update_cfg_from_vcs no longer calls get_latest_vcs_version_tag")
-    NONE = DEFAULT = LE = None
+    NONE = LE = None
+    scope_atoms: T.Dict[str, T.Tuple[str, bool]] = {}        # atom -> (member, polarity: atom true means scope == member)
     for a in upc.atoms:
         tree = ast.parse(a, mode="eval").body
         if a == f"{tagvar} is None":
             NONE = BF.var(a)
             continue
+        if isinstance(tree, ast.Name):
+            d = shapes.single_def(uc, tree.id)
+            if d is not None:
+                tree = d
         cs = shapes.compare_shape(tree)
         if cs is None:
             continue
         op, l, r = cs
         sides = {unparse(l), unparse(r)}
-        if f"{p_cfg}.tag_scope" in sides and any(s.endswith("TagScope.DEFAULT") for s in sides) and op in ("==", "!="):
-            DEFAULT = BF.var(a) if op == "==" else ~BF.var(a)
+        member = [m for m in ("DEFAULT", "GLOBAL", "BRANCH") if any(x.endswith("TagScope." + m) for x in sides)]
+        if f"{p_cfg}.tag_scope" in sides and member and op in ("==", "!="):
+            scope_atoms[a] = (member[0], op == "==")
             continue
         kl, kr = _keyed(prog, uc, l), _keyed(prog, uc, r)
         if kl is not None and kr is not None:
@@ -141,16 +147,16 @@ def run(ctx) -> None:
                     LE = ~BF.var(a)
                 if op in ("<",):
                     ctx.observe("_update_cfg_from_vcs compares with '<': an equal tag replaces the config text (same version, allowed)")
-        elif (unparse(l), unparse(r)) in ((tagvar, f"{p_cfg}.current_version"), (f"{p_cfg}.current_version", tagvar)):
-            ctx.bad("R1", "cli._update_cfg_from_vcs: default-scope comparison is on raw strings",
-                    f"`{a}` compares version texts, not version.parse_version keys", loc=uc.loc())
+        elif any("version" in x for x in sides) and op in ("<", "<=", ">", ">="):
+            ctx.bad("R1", "cli._update_cfg_from_vcs: default-scope comparison is not under version.parse_version",
+                    f"`{a}` orders version texts as strings ('1.10.0' < '1.9.0'): the newest tag is ignored / the version runs backwards", loc=uc.loc(),
+                    witness={"config": "1.9.0", "tag": "1.10.0"})
     ctx.require(NONE is not None, f"_update_cfg_from_vcs does not test `{tagvar} is None`")
-    ctx.require(DEFAULT is not None, "_update_cfg_from_vcs does not test cfg.tag_scope == TagScope.DEFAULT")
+    ctx.require(scope_atoms, "_update_cfg_from_vcs does not branch on cfg.tag_scope")
     if LE is None:
         ctx.bad("R1", "cli._update_cfg_from_vcs: no parse_version comparison of tag and config version on the default scope",
                 "the default scope must keep the greater of config value and newest tag", loc=uc.loc())
     else:
-        keep_spec = NONE | (DEFAULT & LE)
         keep = BF.false()
         repl = BF.false()
         n_ret = 0
@@ -173,17 +179,33 @@ def run(ctx) -> None:
                 else:
                     raise AnalysisError(f"C09/R1: return shape not enumerated: {unparse(n.ast)}")
         ctx.floor("R1", "returns of _update_cfg_from_vcs", n_ret, 3)
-        atoms3 = sorted(set(NONE.atoms) | set(DEFAULT.atoms) | set(LE.atoms))
-        keep, repl = keep.project(atoms3), repl.project(atoms3)
-        # cfg is reassigned nowhere before the returns -> conditions refer to the parameter
-        ctx.check("R1", keep.equiv(keep_spec),
-                  f"_update_cfg_from_vcs keeps cfg iff no tag or (DEFAULT and tag <= config)  [{keep.to_dnf()}]",
-                  "cli._update_cfg_from_vcs: config version kept under the wrong condition",
-                  f"kept iff {keep.to_dnf()}; required {keep_spec.to_dnf()}", loc=uc.loc(), witness=keep.diff_witness(keep_spec))
-        ctx.check("R1", repl.equiv(~keep_spec),
-                  "_update_cfg_from_vcs replaces the version iff a tag exists and not (DEFAULT and tag <= config)",
-                  "cli._update_cfg_from_vcs: tag version adopted under the wrong condition",
-                  f"replaced iff {repl.to_dnf()}; required {(~keep_spec).to_dnf()}", loc=uc.loc(), witness=repl.diff_witness(~keep_spec))
+        base_atoms = sorted(set(NONE.atoms) | set(LE.atoms))
+        # decide per scope value: substitute the truth of every scope atom
+        for scope in ("DEFAULT", "GLOBAL", "BRANCH"):
+            k, rp = keep, repl
+            for atom, (member, pol) in scope_atoms.items():
+                val = (member == scope) == pol
+                k = k.restrict(atom, val)
+                rp = rp.restrict(atom, val)
+            k, rp = k.project(base_atoms), rp.project(base_atoms)
+            want_keep = NONE | LE if scope == "DEFAULT" else NONE
+            ctx.check("R1", k.equiv(want_keep) and rp.equiv(~want_keep),
+                      f"_update_cfg_from_vcs, scope {scope}: config kept iff {'no tag or tag <= config' if scope == 'DEFAULT' else 'no tag matches'}; otherwise the newest tag is adopted",
+                      f"cli._update_cfg_from_vcs: scope {scope.lower()} does not follow its rule",
+                      f"config kept iff {k.to_dnf()}; required {want_keep.to_dnf()}", loc=uc.loc(), witness=k.diff_witness(want_keep))
+    # the lookup must see the effective tag scope: option merge before the tag lookup
+    updf = prog.function("cli.update")
+    ug = cfgs.get(updf.fq)
+    pvo_calls = shapes.find_calls(prog, updf, "cli._parse_vcs_options")
+    look = shapes.find_calls(prog, updf, "cli._update_cfg_from_vcs")
+    if pvo_calls and look:
+        pn = ug.node_containing(pvo_calls[0])
+        ln = ug.node_containing(look[0])
+        ctx.check("R1", ln not in ug.reachable(blocked_nodes=[pn]), "update: --tag-scope is merged into cfg before the tag lookup",
+                  "cli.update: the tag lookup runs before --tag-scope is merged (the newest tag is chosen with the config file's scope)",
+                  "_update_cfg_from_vcs is reachable without passing _parse_vcs_options", loc=updf.loc(look[0]))
+        merged = [n for n in ast.walk(prog.function("cli._parse_vcs_options").node) if isinstance(n, ast.keyword) and n.arg == "tag_scope"]
+        ctx.check("R1", bool(merged), "_parse_vcs_options merges tag_scope into cfg", "cli._parse_vcs_options: --tag-scope is not merged", "", loc="src/bumpver/cli.py")
 
     # ---------------------------------------------------------------- R2
     gl = prog.function("cli.get_latest_vcs_version_tag")
@@ -272,6 +294,10 @@ def run(ctx) -> None:
     ctx.check("R3", [unparse(a) for a in fc.args] == [g.target.id if isinstance(g.target, ast.Name) else "?", p_pat],
               "_parse_version_tags: is_valid(tag, version_pattern)", "cli._parse_version_tags: is_valid arguments changed", unparse(fc), loc=pv.loc(fc))
 
+    from checks.c01 import full_match_rule
+    for eng in ("v2version", "v1version"):
+        full_match_rule(ctx, eng, "R3")
+
     # ---------------------------------------------------------------- R4
     esc = Escapes(prog)
     for modname in ("v2version", "v1version"):
@@ -324,35 +350,30 @@ def run(ctx) -> None:
     ctx.visit(upd.fq, gate.fq)
     gcalls = shapes.find_calls(prog, upd, gate.fq)
     ctx.floor("R5", "gate calls in update", len(gcalls), 1)
+    from sa.pathcond import expr_atoms
     for c in gcalls:
         u = call_arg(c, gate, "unique")
         ctx.require(u is not None, "update no longer passes unique= to the gate")
-        ue = shapes.resolve_alias(upd, u)
-
-        def classify(leaf: ast.AST) -> T.Tuple[str, bool]:
-            cs = shapes.compare_shape(leaf)
-            if cs and cs[0] in ("==", "!="):
-                sides = {unparse(cs[1]), unparse(cs[2])}
-                if "cfg.tag_scope" in sides and any(s.endswith("TagScope.BRANCH") for s in sides):
-                    return "BRANCH", cs[0] == "=="
-                if "cfg.tag_scope" in sides and any(s.endswith("TagScope.DEFAULT") for s in sides):
-                    return "DEFAULT", cs[0] == "=="
-                if "cfg.tag_scope" in sides and any(s.endswith("TagScope.GLOBAL") for s in sides):
-                    return "GLOBAL", cs[0] == "=="
-            if isinstance(leaf, ast.Compare) and unparse(leaf.left) == "set_version" and isinstance(leaf.comparators[0], ast.Constant) and leaf.comparators[0].value is None:
-                return "SET", isinstance(leaf.ops[0], ast.IsNot)
-            if isinstance(leaf, ast.Name) and leaf.id == "set_version":
-                return "SET", True
-            if isinstance(leaf, ast.Name) and leaf.id == "ignore_vcs_tag":
-                return "IGNORE", True
-            raise AnalysisError(f"C09/R5: uniqueness leaf not enumerated: {unparse(leaf)}")
-        got = shapes.bool_expr_bf(ue, classify)
-        need = BF.var("BRANCH") | BF.var("SET")
-        excl = ~(BF.var("BRANCH") & BF.var("DEFAULT")) & ~(BF.var("BRANCH") & BF.var("GLOBAL")) & ~(BF.var("DEFAULT") & BF.var("GLOBAL"))
-        ctx.check("R5", (need & excl).implies(got),
-                  f"update: unique is requested whenever scope is BRANCH or --set-version is given  [{got.to_dnf()}]",
+        defs = [v for _st, v in shapes.local_defs(upd, u.id)] if isinstance(u, ast.Name) else [u]
+        ctx.require(all(d is not None for d in defs), "update: uniqueness flag has a non-expression definition")
+        extra = [u.id] if isinstance(u, ast.Name) else []
+        for d in defs:
+            extra += expr_atoms(d)
+        ug2 = cfgs.get(upd.fq)
+        upc2 = PathCond(ug2, extra_atoms=list(dict.fromkeys(extra)), max_atoms=22)
+        at = ug2.node_containing(c)
+        r = upc2.reach(at)
+        U = upc2.expr_bf(u)
+        ctx.require(U is not None, f"update: uniqueness argument `{unparse(u)}` is not over tracked atoms")
+        br = [a for a in upc2.atoms if "tag_scope" in a and a.endswith("TagScope.BRANCH")]
+        sv = [a for a in upc2.atoms if a == "set_version is None"]
+        ctx.require(len(br) == 1 and len(sv) == 1, f"update: uniqueness atoms not found ({br}, {sv})")
+        need = BF.var(br[0]) | ~BF.var(sv[0])
+        bad = r & need & ~U
+        ctx.check("R5", bad.is_false(),
+                  "update: whenever the gate is reached with scope BRANCH or --set-version, unique is requested",
                   "cli.update: uniqueness check not requested for branch scope / --set-version",
-                  f"unique = {unparse(ue)}; missing when {(need & excl & ~got).to_dnf()}", loc=upd.loc(c), witness=(need & excl & ~got).models(1))
+                  f"gate reached with unique false when {bad.project([br[0], sv[0]] + [a for a in bad.atoms if a in ('ignore_vcs_tag',)]).to_dnf()}", loc=upd.loc(c), witness=bad.models(1))
     # inside the gate
     gcfg = cfgs.get(gate.fq)
     gpc = PathCond(gcfg)
